@@ -6,7 +6,7 @@ fresh REAL objects) of
                 every kind (memory_pool<node|array|small>, memory_pool_collection<..,identity|log2>, memory_stack,
                 iteration_allocator<2>, mixed) built over ONE first-fit upstream that hands out adjacent blocks, with
                 try_deallocate_node/array(A, p, shape) for every allocator A and every live pointer p of every sibling;
- part 2 "comp": ALL sequences up to depth 5 (quick) / 7 (thorough) of {allocate node, allocate array x1/x2/x3, release
+ part 2 "comp": ALL sequences up to depth 5 (quick) / 7 (thorough; 6 in rel) of {allocate node, allocate array x1/x2/x3, release
                 any live allocation} on 25 compositions (fallback, nested fallbacks, aligned/tracked/reference/
                 type-erased reference/thread_safe layers, binary_segregator) x 8 leaf configurations (instrumented
                 leaves with a call log and real pools/stacks/collections behind them) x {normal, composable} interface.
@@ -31,8 +31,11 @@ def check(prop, tier, only):
                                      name=f"siblings/{sc}/shard{s}of{shards}[{cfg}]"))
         groups = 6 if quick else 16
         for g in range(groups):
-            jobs.append(checks.J("h_compose", cfg, f"--part comp --group {g} --groups {groups}",
-                                 name=f"compositions/group{g}of{groups}[{cfg}]"))
+            # thorough: depth 7 where debug code is compiled in (rwd, dbg), 6 in rel (the composition layers are header
+            # templates without configuration dependent code; only the real pools behind the leaves differ)
+            d = 5 if quick else (6 if cfg == "rel" else 7)
+            jobs.append(checks.J("h_compose", cfg, f"--part comp --group {g} --groups {groups} --depth {d}",
+                                 name=f"compositions/group{g}of{groups}/depth{d}[{cfg}]"))
     note = ("Bounded model checking of the real objects by exhaustive sequence enumeration (no state is carried over: every "
             "sequence is executed from scratch on fresh allocators over a deterministic first-fit upstream arena whose blocks are "
             "adjacent). Part 1 oracle (shadow model of who handed out which pointer): try_deallocate_*(A,p,shape) returns true iff A "
